@@ -24,6 +24,8 @@ NEGATIVE_CONTROLS = [
     "nc5_robbed_members_and_statics: outgoing queue filled through a moved temporary with added braces/comments, replay-log counter "
     "pre-incremented before the write, relay job as a named lambda, static helper CleanupCertificateRequest renamed",
     "nc6_zone_walk: Zone::IsChildOf as a recursion, CanAccessObject as one expression, GetEndpoints collecting into a vector first",
+    "nc7_newest_connection_and_parent_walk: SyncSendMessage computing the newest timestamp with std::max over a copied client set and "
+    "sending afterwards, Zone::OnAllConfigLoaded's parent walk as a for loop (each parent still resolved by name)",
 ]
 
 
@@ -32,7 +34,7 @@ class C11(Check):
     required_theorems = [
         # one relaying node, every topology / connectivity / origin / object zone / iteration order
         "only_entitled", "no_echo", "single_entry", "only_master_crosses", "logged_not_dropped", "logged_not_dropped_global",
-        "reachable_only", "no_duplicate_send", "origin_zone_copied", "relay_meets_spec",
+        "reachable_only", "no_duplicate_send", "origin_zone_copied", "relay_meets_spec", "same_master",
         "logged_not_dropped_three_endpoints_counterexample",
         # the cluster
         "second_hop_no_echo", "net_only_entitled", "net_no_discard",
@@ -51,7 +53,9 @@ class C11(Check):
                   "goes to a reachable endpoint of an entitled zone (the object's zone or an ancestor; global object: own zone or a direct "
                   "child), never to the origin's endpoint or zone, to at most one endpoint of a foreign zone, never twice to the same endpoint, "
                   "a non-master sends to nobody but its zone master, a node that reaches no member of an entitled directly related zone (or its "
-                  "own zone peer) persists the message, the origin zone travels in the message - together: the executable specification holds "
+                  "own zone peer) persists the message, the origin zone travels in the message, the master named by GetMaster depends on names and "
+                  "connectedness only (two nodes with the same view name the same master: `same_master`), what is due at a hop (zone peer; one "
+                  "endpoint of every entitled directly related zone for the master) is sent, one copy per endpoint - together: the executable specification holds "
                   "on the model's own output. Cluster-wide, for every topology and every delivery order (induction over deliveries): every "
                   "message ever put on the wire goes to an entitled zone and carries an origin that makes the recipient accept it (nothing is "
                   "discarded when the originator is entitled), and the second hop never returns to the zone the event came from; and - GENERAL, "
@@ -67,7 +71,8 @@ class C11(Check):
                   "kept as a cross-check of the executable forms of both statements. "
                   "The transcription is tied to the code by differential execution of the real ApiListener::RelayMessage.")
     level_note = ("Trusted: Lean kernel (+ propext, Classical.choice, Quot.sound), the sampled/enumerated correspondence, harness/driver. "
-                  "Not modelled: connectivity changing while an event is in flight (C12), the `syncing` window (Q-C12b), TCP/TLS, the "
+                  "Not modelled: connectivity changing while an event is in flight (C12), TCP/TLS; `syncing` is modelled per node (nothing is "
+                  "queued for a syncing endpoint; GetMaster and RelayMessageOne ignore the flag) but not in the network model (Q-C12b), the "
                   "`ts`-based discard of old messages in MessageHandler (C12). The cluster-wide theorems are about the network MODEL (composition "
                   "of the per-node function that the correspondence ties to the code); robustness: 6 behaviour-preserving rewrites of the anchored "
                   "code (NEGATIVE_CONTROLS in checks/c11.py, patches in corpus/C11/negative_controls) pass silently; hypotheses: global zones have no parent, forest depth "
@@ -87,7 +92,7 @@ class C11(Check):
     ]
     assumptions = [
         "a node is connected to an endpoint iff a JsonRpcConnection object is attached to it (Endpoint::AddClient); connections are "
-        "constructed but never started; Endpoint::GetSyncing() is false",
+        "constructed but never started; `syncing` is set with Endpoint::SetSyncing as part of the scenario",
         "zones, endpoints and the ApiListener are created directly (new + Register + OnAllConfigLoaded + Activate), the security object is "
         "the Zone itself, a User with that zone attribute, or absent",
         "the relay work queue is joined and every connection's strand is passed by a barrier before the queues are read; the virtual "
@@ -170,7 +175,7 @@ class C11(Check):
                 seen_ops[op] = seen_ops.get(op, 0) + 1
                 if seen_ops[op] > 1 or len(seen_ops) > 3:
                     continue
-                if op == "order":
+                if op in ("order", "all_parents"):
                     shown, isolated = [all_lines[int(kv["line"]) - 1]], False
                 else:
                     shown, isolated = self._shrink(harness, driver, all_lines, int(kv["line"]), "MISMATCH", "op=" + op)
@@ -242,7 +247,12 @@ class C11(Check):
                     "MessageHandler can produce} x {every zone incl. the global one, no object} when it has at most 2500 (thorough 20000) "
                     "points, else that many seeded samples; unrelated endpoints' connectivity, one/two connections per endpoint, object kind "
                     "(Zone itself / User with zone attribute / none) and the log flag seeded; 1/8 extra cases with origins MessageHandler "
-                    "cannot produce; per node identity additionally NETWORK STEPS (D lines): a raw JSON-RPC message from every other endpoint x "
+                    "cannot produce; connectivity states per endpoint: not connected / one connection / two connections (older and newer, their "
+                    "order in memory alternating) / either of the latter with the endpoint `syncing` (zone peers: all three of not connected, "
+                    "connected, connected+syncing in the grid); zones finalised (Zone::OnAllConfigLoaded) parents-first, children-first or in a "
+                    "seeded permutation, and for every tree of depth 3 with 3-4 (thorough 5) zones in EVERY permutation, Zone::GetAllParents() of "
+                    "every zone compared with the model's chain; per topology both members of every two-member zone asked for their master "
+                    "in all 9 combinations of the peer states (M lines, `specMasterPair`); per node identity additionally NETWORK STEPS (D lines): a raw JSON-RPC message from every other endpoint x "
                     "originZone field (absent / every zone for zone peers, absent / one seeded zone for foreign senders) x object zone is handed "
                     "to the real JsonRpcConnection::MessageHandler, whose registered handler discards by Zone::CanAccessObject or re-relays "
                     "with the computed origin - compared with the model's `deliver` (originOf, accept, relay), full grid when at most cap/2 "
@@ -258,7 +268,7 @@ class C11(Check):
 
     def replay(self, path, harness, driver):
         data = json.load(open(path))
-        lines = [l for l in data.get("case", []) if l[:2] in ("T ", "R ", "D ")]
+        lines = [l for l in data.get("case", []) if l[:2] in ("T ", "R ", "D ", "M ")]
         out, shown = self._replay_lines(harness, driver, lines, "replay")
         print("\n".join(shown))
         print("\n".join(out))
